@@ -586,7 +586,10 @@ pub fn check_main(args: &[String]) -> i32 {
         }
         if !ended {
             let se = String::from_utf8_lossy(&out.stderr);
-            match (begun, died(&out.status)) {
+            // running out of memory or of mappings is the machine's (or the harness's) problem,
+            // not a verdict on the library
+            let oom = se.contains("memory allocation of") || se.contains("Cannot allocate memory");
+            match (begun, died(&out.status) && !oom) {
                 (Some(idx), true) => {
                     // the process was killed while executing run idx: a memory-safety failure in a
                     // workload that uses only the safe public API
